@@ -25,6 +25,12 @@ def run(ctx):
     for pos in (0, 5, 10):
         rec(dict(op='back', P=W(0xEDB88320, 2), init=W(0xffffffff, 2), data=B(d0), pos=pos, width=32), lambda pos=pos: C.crc_back_pos(d0, pos, C.TABLE32_1b, 0xffffffff, C.crc(d0, C.TABLE32_1, 0xffffffff, 0xffffffff)), lambda r: W(r, 2))
     ctx.mark(('exported tables first',))
+    for init, final in ((0, 0), (0x12345678, 0), (0xffffffff, 0xffffffff), (0, 0xffffffff)):            # the exported forward table with other initial / final values, and a chunked computation
+        rec(dict(op='crc', P=W(0xEDB88320, 2), init=W(init, 2), final=W(final, 2), data=B(d0), width=32), lambda init=init, final=final: C.crc(d0, C.TABLE32_1, init, final), lambda r: W(r, 2))
+    mid = C.crc(d0[:4], C.TABLE32_1, 0xffffffff, 0)
+    try: midv = int(mid)
+    except Exception: midv = 0
+    rec(dict(op='crc', P=W(0xEDB88320, 2), init=W(midv, 2), final=W(0xffffffff, 2), data=B(d0[4:]), width=32), lambda: C.crc(d0[4:], C.TABLE32_1, midv, 0xffffffff), lambda r: W(r, 2))
     datas = [b'', b'\x00', b'\xff', b'a', b'abc', b'123456789', bytes(32), b'\xff' * 32] + [rb(n) for n in (list(range(1, 41, 3 if not big else 1)) + [64, 100, 255, 256, 300])] + ([rb(rnd.randrange(300)) for _ in range(60)] if big else [])
     for d in datas:
         rec(dict(op='crc32', data=B(d)), lambda d=d: C.crc32(d), lambda r: W(r, 2)); ctx.mark(('crc32', len(d), d[:4].hex()))
@@ -89,6 +95,9 @@ def run(ctx):
             rec(dict(op='fix', data=B(d), pos=len(d) - 4, target=W(t, 2)), lambda d=d, t=t: C.crc32_fix(d, t), lambda r: B(r)); ctx.mark(('fix', len(d), t))
             for pos in range(0, len(d) - 3):
                 rec(dict(op='fix', data=B(d), pos=pos, target=W(t, 2)), lambda d=d, t=t, pos=pos: C.crc32_fix_pos(d, pos, t), lambda r: B(r)); ctx.mark(('fixpos', len(d), pos, t))
+    for d, t in ((rb(9), 305419896), (rb(6), 0xdeadbeef), (rb(12), 10)):                                # targets given as text (decimal, 0x-prefixed): the API parses them with int(target, 0)
+        for form in (str(t), hex(t)):
+            rec(dict(op='fix', data=B(d), pos=len(d) - 4, target=W(t, 2)), lambda d=d, form=form: C.crc32_fix(d, form), lambda r: B(r)); ctx.mark(('fix text target', form))
     ctx.exhaustive_subspaces.append('crc32_fix_pos at every position of the short data strings x target classes {0, 1, 2^31, 2^32-1, ...}')
     ctx.evaluations = len(ev); ctx.sample(ev[5]); ctx.sample(ev[-1])
     traces = [dict(ev=ev[i:i + 10]) for i in range(0, len(ev), 10)]
